@@ -49,6 +49,10 @@ def inline_elem(rng, depth, used, quotes):
     if r < 0.70:
         u = rng.choice(URLWORDS)
         cs, ch = inline_seq(rng, depth + 1, used | {'['}, quotes, rng.randint(1, 2), no_links=True)
+        if rng.random() < 0.3:
+            # an inline tag, comment or entity inside the caption (raw at mode 0 only: see callers' modes)
+            t = rng.choice(['<sub>2</sub>', '<!-- c -->', '<br>', '&amp;', '&#160;'])
+            cs, ch = cs + t + 'O', ch + t + 'O'
         if rng.random() < 0.25:
             return '^[' + cs + '](' + u + ')', '<a href="' + escape(u) + '" target="_blank">' + ch + '</a>'
         return '[' + cs + '](' + u + ')', '<a href="' + escape(u) + '">' + ch + '</a>'
